@@ -270,6 +270,62 @@ func metaMain(args mon.Args) {
 				}
 			}
 		}
+		// announced later: a data set of id Y arrives before the set that first announces Y in the same message.
+		// At that point it is a set of an unknown template; the later template set and the data sets of Y
+		// behind it must be decoded exactly as if the early set were absent.
+		for _, ds := range baseSets {
+			if ds.Kind != wire.SetData || ds.Tpl == nil || len(ds.Records) == 0 {
+				continue
+			}
+			yID := uint16(g.Range(256, 65535))
+			for used[yID] {
+				yID++
+			}
+			used[yID] = true
+			tY := *ds.Tpl
+			tY.ID = yID
+			tY.Scope = append([]wire.Field{}, ds.Tpl.Scope...)
+			tY.Fields = append([]wire.Field{}, ds.Tpl.Fields...)
+			kY := wire.SetTemplate
+			if tY.Options {
+				kY = wire.SetOptTemplate
+			}
+			tSet := wire.Set{Kind: kY, Templates: []*wire.Template{&tY}}
+			if proto == "nf9" {
+				tSet.Pad = (4 - wire.SetLen(&tSet)%4) % 4
+			}
+			dSet := wire.Set{Kind: wire.SetData, Tpl: &tY, SetID: yID, Records: ds.Records, Pad: ds.Pad}
+			ext := append(append([]wire.Set{}, baseSets...), tSet, dSet)
+			base2, _ := wire.EncodeFlow(proto, fc.HdrRaw[last], ext)
+			if len(base2) > 60000 {
+				break
+			}
+			recs2, d2 := decodeOn(proto, fc.Addr, pre, base2)
+			if len(recs2) != len(baseRecs)+len(ds.Records) {
+				break // the late template is not usable by itself (e.g. unknown elements): nothing to compare
+			}
+			one := wire.EncodeRecord(&tY, ds.Records[0])
+			for p := 0; p <= len(baseSets); p++ {
+				u := wire.Set{Kind: wire.SetRaw, SetID: yID, RawBody: g.Bytes(g.Intn(65))}
+				if g.Bool() {
+					u.RawBody = append([]byte{}, one...)
+				}
+				if proto == "nf9" {
+					u.Pad = (4 - (4+len(u.RawBody))%4) % 4
+				}
+				sets := append(append(append([]wire.Set{}, ext[:p]...), u), ext[p:]...)
+				pert, _ := wire.EncodeFlow(proto, fc.HdrRaw[last], sets)
+				run.Distinct(fmt.Sprintf("%s|announced-later|pos%d/%d|opt%v", proto, p, len(baseSets), tY.Options))
+				run.Add("insertions_of_a_set_whose_template_is_announced_later_in_the_message", 1)
+				c := &metaCase{Proto: proto, Addr: mon.Hex(fc.Addr), Pre: preHex, Base: mon.Hex(base2), Perturbed: mon.Hex(pert), Kind: "insert:announced-later",
+					Detail: fmt.Sprintf("data set of id %d (%d body octets) inserted before set #%d of %d; template %d is first announced by set #%d of the same message", yID, len(u.RawBody), p, len(ext), yID, len(baseSets))}
+				run.Eval(1)
+				if k, w := runMetaBase(c, recs2, &d2); k != "" {
+					run.Violation("meta:"+proto+":"+k, w, c)
+				}
+			}
+			break
+		}
 		// truncation: every cut (stride on very long messages)
 		step := 1
 		if len(base) > 3000 {
@@ -300,7 +356,7 @@ func metaMain(args mon.Args) {
 			run.HarnessError("canary: comparator accepted an altered record")
 		}
 	}
-	run.SetRule("metamorphic over the real decoders (IPFIX and NetFlow v9, fresh identically pre-loaded caches): for a generated well-formed message M, (1) at EVERY position between sets a length-consistent undecodable set is inserted - reserved id (ipfix 4..255, v9 2..255), unknown template id, or a known template that uses an element missing from the information model - with 0..64 random body octets: records must equal those of M exactly and in order and the message must not be rejected; (2) for EVERY cut 0..len(M) the records of M[:cut] must be a prefix of the records of M. distinct = (protocol, kind, position, body length class) / message shape")
+	run.SetRule("metamorphic over the real decoders (IPFIX and NetFlow v9, fresh identically pre-loaded caches): for a generated well-formed message M, (1) at EVERY position between sets a length-consistent undecodable set is inserted - reserved id (ipfix 4..255, v9 2..255), unknown template id, or a known template that uses an element missing from the information model - with 0..64 random body octets, and (1b) a data set of an id that the same message announces only later, placed at every position before that announcement: records must equal those of M exactly and in order and the message must not be rejected; (2) for EVERY cut 0..len(M) the records of M[:cut] must be a prefix of the records of M. distinct = (protocol, kind, position, body length class) / message shape")
 	run.Assume("IPFIX set ids 0 and 1 are 'not used' rather than reserved and are not inserted")
 	run.Finish()
 }
